@@ -10,7 +10,7 @@ import (
 )
 
 func init() {
-	register("C15", "Argument resolution: (R1) validation excludes unconvertible literals — in the OnValue observer of ValuesOfCorrectType the conversion test (Value.Value, error -> addError) cannot be skipped by any return other than those taken because an annotation is missing, and the report after a failed conversion is guarded by the error test only; (R2) nil safety of arg2map, Field.ArgumentMap, Directive.ArgumentMap and Value.Value under the validated-document precondition, and the panics of arg2map are reached only through a conversion error; (R3) variable presence is decided by the comma-ok form of the lookup in the variables map — the looked-up value is never compared with nil to decide between the supplied value and a default (an explicit null must win over the default); (R4) Field.ArgumentMap and Directive.ArgumentMap are the same single call of arg2map on their own definition's arguments and their own arguments; (R5) in arg2map the literal/variable branch is tried first, the default is consulted only when no value was found, and the result is written only when a value was found.", runC15)
+	register("C15", "Argument resolution: (R1) validation excludes unconvertible literals — in the OnValue observer of ValuesOfCorrectType the conversion test (Value.Value, error -> addError) cannot be skipped by any return other than those taken because an annotation is missing, and the report after a failed conversion is guarded by the error test only; (R2) nil safety of arg2map, Field.ArgumentMap, Directive.ArgumentMap and Value.Value under the validated-document precondition, and the panics of arg2map are reached only through a conversion error; (R3) variable presence is decided by the comma-ok form of the lookup in the variables map — the looked-up value is never compared with nil to decide between the supplied value and a default (an explicit null must win over the default); (R4) Field.ArgumentMap and Directive.ArgumentMap are the same single call of arg2map on their own definition's arguments and their own arguments; (R5) in arg2map the literal/variable branch is tried first, the default is consulted only when no value was found, and the result is written only when a value was found. (R7) index and slice expressions reachable from ArgumentMap are in bounds; (R8) an explicit null supplied for a variable is written to the coerced map on every path (C14.R10).", runC15)
 }
 
 func runC15(c *Ctx) {
@@ -398,6 +398,13 @@ func runC15(c *Ctx) {
 		treeWrites(c, e, cs, r6, "argument resolution")
 		r7 := c.Rule("R7", "index and slice expressions reachable from ArgumentMap are in bounds", 3)
 		c02IndexSafety(c, r7, cs)
+	}
+	// ---- R8 an explicit null supplied for a variable reaches the coerced map (so that it can beat a default)
+	r8 := c.Rule("R8", "a supplied or defaulted variable is written to VariableValues' result on every path", 1)
+	if vv := p.Func("validator.VariableValues"); vv == nil {
+		r8.AnchorLost("validator.VariableValues")
+	} else {
+		c14EveryValuedVariableWritten(c, r8, vv)
 	}
 }
 
